@@ -5,3 +5,6 @@ package common
 
 // trust-root marker of a side chain: GENESIS_HEADER ++ 8-byte chain id
 //@ spec genKey(id uint64) KeyT = K2(utils.HeaderSyncContractAddress, "genesisHeader", u64le(id))
+
+// key of the tendermint-family trust root (epoch switch info) of chain id
+//@ spec epochKey(id uint64) KeyT = K2(utils.HeaderSyncContractAddress, "epochSwitch", u64le(id))
